@@ -484,6 +484,19 @@ fn check_inner(case: &GCase) -> Outcome {
     let mut nontrivial = false;
     let mut base_iface = None;
     if let Ok(bytes) = &r {
+        // export names are read at section level and do not depend on the output being valid
+        if let Ok(w) = wire::decode(bytes) {
+            let names: Vec<&String> = w.exports.iter().map(|e| &e.0).collect();
+            comparisons += 1;
+            if let Some(d) = names.iter().find(|n| names.iter().filter(|m| m == n).count() >= 2) {
+                return o.with_verdict(Verdict::Fail { sig: "C03/export-name-emitted-twice".into(), msg: format!("the output exports `{d}` more than once; exports: {names:?}\n--- trace ---\n{trace}") });
+            }
+            for (name, node) in &b.exports {
+                if b.graph.get_export(name) == Some(*node) && !names.contains(&name) {
+                    return o.with_verdict(Verdict::Fail { sig: "C03/designated-export-missing".into(), msg: format!("`{name}` is a designated export of the graph but not of the output; exports: {names:?}\n--- trace ---\n{trace}") });
+                }
+            }
+        }
         if validate(bytes).is_err() {
             return o.with_verdict(Verdict::Foreign("output does not validate (C01's obligation)".into()));
         }
